@@ -412,7 +412,7 @@ fn bits_wrapper<const B: usize, const L: usize>(c: &mut Cx, a: &[Arg]) {
     chk!(c, "Bits::as_le_bytes", bx.as_le_bytes().into_owned(), &e);
     let e = inh!(c, x.to_be_bytes_vec());
     chk!(c, "Bits::to_be_bytes_vec", bx.to_be_bytes_vec(), &e);
-    byte_arrays!(c, x, bx, bytes; 0 1 2 4 8 9 13 16 17 24 32 33 48 64);
+    byte_arrays!(c, x, bx, bytes; 0 1 2 4 8 9 13 16 17 24 32 33 48 64 520);
     let e = inh!(c, x.leading_zeros());
     chk!(c, "Bits::leading_zeros", bx.leading_zeros(), &e);
     let e = inh!(c, x.leading_ones());
